@@ -36,7 +36,7 @@ Theorem C01_xmlx_rt_spyne : forall (soft : bool) (U : universe),
 Proof. exact xmlx_rt_spyne. Qed.
 
 (** non-vacuity: a simpleContent class (XmlData(Unicode) + a required XmlAttribute(Date)), a class
-    with a bounded customised integer (UnsignedInteger8(ge=1)), a ByteArray, a max_occurs=3 DateTime
+    with a bounded customised integer (UnsignedInteger8(ge=1), sub_name and sub_ns), a ByteArray (sub_name), a max_occurs=3 DateTime
     member and a wrapped array of the first class, and its subclass with a Duration; the value holds
     an empty string as XmlData, an empty byte string, an empty sequence, a negative offset with
     minutes, a microsecond-only duration *)
@@ -48,15 +48,15 @@ Definition lt_u8 : ltype :=
 Definition lt_of (s : lspec) : ltype := mkltype s [120].
 Definition ex_U : universe :=
   [ mkcls [117] [65] None
-      [ mkfield [100] (TLeaf (lt_of SText)) 0 (Some 1) true KData;
-        mkfield [119] (TLeaf (lt_of SDate)) 1 (Some 1) true KAttr ];
+      [ mkfield [100] (TLeaf (lt_of SText)) 0 (Some 1) true KData None None;
+        mkfield [119] (TLeaf (lt_of SDate)) 1 (Some 1) true KAttr None None ];
     mkcls [117] [66] None
-      [ mkfield [110] (TLeaf lt_u8) 1 (Some 1) true KElem;
-        mkfield [98] (TLeaf (lt_of SBytes)) 0 (Some 1) true KElem;
-        mkfield [116] (TLeaf (lt_of SDateTime)) 0 (Some 3) true KElem;
-        mkfield [97] (TArr (TRef 0%nat) [117] [65]) 0 (Some 1) true KElem ];
+      [ mkfield [110] (TLeaf lt_u8) 1 (Some 1) true KElem (Some [105; 100]) (Some [117; 114; 110; 58; 119]);   (* n, on the wire {urn:w}id *)
+        mkfield [98] (TLeaf (lt_of SBytes)) 0 (Some 1) true KElem (Some [98; 50]) None;                        (* b, on the wire b2 *)
+        mkfield [116] (TLeaf (lt_of SDateTime)) 0 (Some 3) true KElem None None;
+        mkfield [97] (TArr (TRef 0%nat) [117] [65]) 0 (Some 1) true KElem None None ];
     mkcls [118] [67] (Some 1%nat)
-      [ mkfield [112] (TLeaf (lt_of SDur)) 0 (Some 1) false KElem ] ].
+      [ mkfield [112] (TLeaf (lt_of SDur)) 0 (Some 1) false KElem None None ] ].
 Definition ex_v : val :=
   VObj 2%nat [ VLeaf (LInt 255); VLeaf (LBytes []); VList [];
                VList [VObj 0%nat [VLeaf (LText []); VLeaf (LDate (mkdate 2024 2 29))]; VNone];
